@@ -106,7 +106,7 @@ def slices(tier):
                               maxrestart=1 if th else 0, maxevents=1 if th else 0, restages=(True,))
     # histories
     ev = dict(muthows=HOWS, maxmut=1, maxwrite=1, maxrestart=1, maxagain=1, maxevents=4 if th else 3, restages=(True, False))
-    deep = dict(ev, maxmut=2, maxrestart=2) if th else ev
+    deep = dict(ev, maxmut=2) if th else ev
     S["hist-file"] = slice_consts(m1=["copy", "link", "copyout"], l1=["pa", "da"], mutlocs=["pa", "da"], writes=["o", "a"], **deep)
     S["hist-dir"] = slice_consts(m1=["copy", "link"], l1=["pd", "apd"], mutlocs=["pd", "apd"], writes=["o", "d/a", "d/o"], **deep)
     S["hist-extract"] = slice_consts(m1=["extract"], l1=["pt"], m2=["copy", "link"], l2=["qa", "qd"], lens=(1, 2), mutlocs=["pt", "qa"], writes=["o", "a", "d/o"], **ev)
@@ -123,7 +123,7 @@ def slices(tier):
                                  maxmut=1, maxwrite=1, maxrestart=1, maxagain=0, maxevents=2 if not th else 3, restages=(True, False))
     # a placeholder of a loop: the latest iteration is staged, :loopref / :loopoutput check every iteration and stage nothing; the loop iterates
     loop_m = ["copy", "link", "ref", "copyout", "loopref", "loopoutput"]
-    S["hist-loop"] = slice_consts(m1=loop_m, l1=["wa"], lens=(1,), alt=("none", "dir") if th else (),
+    S["hist-loop"] = slice_consts(m1=loop_m, l1=["wa"], lens=(1,), alt=("none",) if th else (),
                                   mutlocs=["w0", "w1"], muthows=["mod", "rm", "mkfile"] if th else ["mod", "rm"], writes=["o", "a"] if th else ["a"], iterates=True,
                                   maxmut=1, maxwrite=1, maxrestart=1, maxagain=1, maxevents=3, restages=(True, False) if th else (True,))
     S["hist-loop2"] = slice_consts(m1=["copy", "link", "loopref"], l1=["wa"], m2=["copy", "link"], l2=["wa", "pa"], lens=(2,), alt=("none",) if th else (),
